@@ -157,6 +157,8 @@ def _check_many(spec, stats):
     from vlib.gens import MockReg
     p = spec["p"]
     n, dw = p["n"], p["dw"]
+    if p["shape"] in ("csrdec", "wbdec"):
+        return _check_many_windows(spec, stats)
     mm = MemoryMap(addr_width=max(1, (n - 1).bit_length()), data_width=dw)
     if p["shape"] == "many":
         regs = [MockReg(dw, p["acc"]) for _ in range(n)]
@@ -181,6 +183,45 @@ def _check_many(spec, stats):
             if classify_exception(e) is None:
                 raise
             raise Violation(f"C19/elab/{_site(e)}", f"multiplexer over {p['shape']} x{n}: {type(e).__name__}: {str(e)[:200]}")
+    stats.label("scale:" + p["shape"])
+    stats.nontrivial = True
+
+
+def _check_many_windows(spec, stats):
+    """Scale family: a decoder over n two-address subordinates: must elaborate (twice), convert to
+    RTLIL and be accepted by the simulator."""
+    from amaranth.hdl import Fragment
+    from amaranth.sim import Simulator
+    from amaranth_soc import csr, wishbone
+    from amaranth_soc.memory import MemoryMap
+    p = spec["p"]
+    n, dw = p["n"], p["dw"]
+    aw = (2 * n - 1).bit_length()
+    feat = p.get("feat", [])
+    if p["shape"] == "csrdec":
+        dec = csr.Decoder(addr_width=aw, data_width=dw)
+        subs = [csr.Interface(addr_width=1, data_width=dw, path=(f"s{i}",)) for i in range(n)]
+    else:
+        dec = wishbone.Decoder(addr_width=aw, data_width=dw, features=feat)
+        subs = [wishbone.Interface(addr_width=1, data_width=dw, features=feat, path=(f"s{i}",)) for i in range(n)]
+    for s_ in subs:
+        s_.memory_map = MemoryMap(addr_width=1, data_width=dw)
+        dec.add(s_)
+    ports = components.flat_signals(dec)
+    for s_ in subs:
+        ports += components.flat_signals(s_)
+    for k, (what, fn) in enumerate((("elaboration #1", lambda: Fragment.get(dec, None)), ("elaboration #2", lambda: Fragment.get(dec, None)),
+                                    ("conversion to RTLIL", lambda: rtlil.convert(dec, ports=ports)),
+                                    ("building the simulator", lambda: Simulator(dec)))):
+        try:
+            fn()
+        except RecursionError as e:
+            raise Violation(f"C19/elab/{_site(e)}", f"{p['shape']} over {n} windows ({dw}-bit bus, features {feat}): "
+                            f"RecursionError in {what}")
+        except Exception as e:
+            if classify_exception(e) is None:
+                raise
+            raise Violation(f"C19/elab/{_site(e)}", f"{p['shape']} over {n} windows: {what}: {type(e).__name__}: {str(e)[:200]}")
     stats.label("scale:" + p["shape"])
     stats.nontrivial = True
 
@@ -348,4 +389,7 @@ def pinned():
     for shape, n, acc, ov in (("many", 300, "rw", None), ("many", 700, "rw", None), ("many", 700, "r", 0),
                               ("wide", 300, "w", None), ("wide", 300, "rw", None)):
         out.append((f"scale-{shape}-{n}-{acc}-ov{ov}", {"cls": "mux_many", "p": {"shape": shape, "n": n, "dw": 8, "acc": acc, "ov": ov}}))
+    # decoders over several hundred windows
+    for shape, n, feat in (("csrdec", 300, []), ("csrdec", 700, []), ("wbdec", 300, ["err", "stall"]), ("wbdec", 700, ["err", "rty", "stall"])):
+        out.append((f"scale-{shape}-{n}", {"cls": "mux_many", "p": {"shape": shape, "n": n, "dw": 8, "feat": feat}}))
     return out
